@@ -64,7 +64,9 @@ def attribute(v):
         props.add("C12")
     if a in ("Analyze", "Helper") and anything:
         props.add("C13")
-    if a not in ("Exit", "Enter", "RoundTrip", "Copy", "Analyze", "Helper") and fields:
+    if a == "RxnArith" and anything:
+        props.add("C12")
+    if a not in ("Exit", "Enter", "RoundTrip", "Copy", "Analyze", "Helper", "RxnArith") and fields:
         props.add("C02")
         if "in_context" in tags and any(f.endswith(":ctx") for f in fields):
             props.add("C03")
